@@ -281,6 +281,7 @@ type envTypeGen struct {
 	colls  bool            // slices / arrays / maps of structs (sub-transformers)
 	np     []string        // names of the enclosing non-embedded fields
 	flat   map[string]bool // flattened Go names used so far (embedded structs share their parent's name space)
+	shorts int             // pflag shorthand letters handed out
 }
 
 func (g *envTypeGen) genStruct(depth int, path, words []string) reflect.Type {
@@ -397,6 +398,12 @@ func (g *envTypeGen) genStruct(depth int, path, words []string) reflect.Type {
 					tagParts = append(tagParts, fmt.Sprintf(`dialsalias:"old_n%d"`, len(g.leaves)))
 					leaf.aliasOf = adoc
 				}
+			}
+			if g.alias && g.shorts < 20 && r.Chance(12) {
+				// a pflag shorthand (distinct within the type), with or without an alias on the same leaf: the
+				// alias copy of the field must not claim the shorthand a second time
+				tagParts = append(tagParts, fmt.Sprintf(`dialspflagshort:"%c"`, "abcdefgijklmnopqrstu"[g.shorts]))
+				g.shorts++
 			}
 			g.leaves = append(g.leaves, leaf)
 		}
